@@ -33,6 +33,7 @@ def run(prog, tier):
     check_opb(R, prog)
     check_latex(R, prog)
     check_format_select(R, prog)
+    check_find_sentinel(R, prog)
     from .c06 import check_write_through
     check_write_through(R, prog, P, [("cnfgen.formula.cnfio", "CNFio", ("to_opb", "to_latex", "to_file")),
                                      ("cnfgen.formula.opbio", "OPBio", ("to_opb", "to_latex", "to_file"))])
@@ -375,3 +376,52 @@ def check_format_select(R, prog):
                     R.ok("FORMAT-SELECT", "%s offers formats %s, all handled" % (mod.split(".")[-1], sorted(vals)), fi.key)
                 else:
                     R.bad(F("FORMAT-SELECT", fi, "%s --output-format choices" % mod, "offered formats %s are not all handled by guess_output_format" % sorted(vals)))
+
+
+def check_find_sentinel(R, prog):
+    """FIND-SENTINEL: `str.find` answers -1 for `not found`, and `min(.., default=-1)` does the same for an empty list.  Such a value is
+    never used as an index or a slice bound unless a test on it (`> 0`, `>= 0`, `!= -1`, `== -1`, a filter comprehension) decides the
+    path: `name[:-1]` silently drops the last character (the negation bar of a one-letter variable name ends up over nothing)."""
+    from ..cfg import CFG
+    n = 0
+    for mod in ("cnfgen.utils.latexoutput", "cnfgen.utils.opb"):
+        for q, fi in sorted(prog.modules[mod].functions.items()):
+            stmts = stmts_in(fi.node)
+            cfg = CFG(fi.node)
+            maybe_neg = {}
+            for st in stmts:
+                if isinstance(st, ast.Assign) and len(st.targets) == 1 and isinstance(st.targets[0], ast.Name):
+                    v = st.value
+                    if isinstance(v, ast.Call) and method_name(v) in ("find", "rfind"):
+                        maybe_neg[st.targets[0].id] = st
+                    if isinstance(v, ast.Call) and call_name(v) in ("min", "max"):
+                        d = [k.value for k in v.keywords if k.arg == "default"]
+                        if d and isinstance(d[0], ast.UnaryOp) and isinstance(d[0].op, ast.USub):
+                            maybe_neg[st.targets[0].id] = st
+            for name, dst in sorted(maybe_neg.items()):
+                uses = []
+                for st in stmts:
+                    for x in ast.walk(st):
+                        if isinstance(x, ast.Subscript):
+                            sl = x.slice
+                            parts = [sl.lower, sl.upper] if isinstance(sl, ast.Slice) else [sl]
+                            if any(isinstance(p_, ast.Name) and p_.id == name for p_ in parts if p_ is not None):
+                                uses.append((st, x))
+                for st, x in uses:
+                    n += 1
+                    sn = cfg.node_of(st)
+                    guarded = False
+                    for g in [s_ for s_ in stmts if isinstance(s_, ast.If)]:
+                        if any(isinstance(c, ast.Compare) and isinstance(c.left, ast.Name) and c.left.id == name for c in ast.walk(g.test)):
+                            gn = cfg.node_of(g)
+                            if gn is not None and sn is not None and (cfg.edge_dominates(gn, True, sn) or cfg.edge_dominates(gn, False, sn)):
+                                guarded = True
+                    if guarded:
+                        R.ok("FIND-SENTINEL", "%s: `%s` used in %s under a test on it" % (q, name, src(x)[:40]), fi.key)
+                    else:
+                        R.bad(F("FIND-SENTINEL", fi, "%s: `%s` may be -1 in %s" % (q, name, src(x)[:40]),
+                                "`%s` (line %d) is -1 when nothing is found, and `%s` uses it without a test: a slice with -1 drops the last "
+                                "character instead of meaning `not found`" % (name, dst.lineno, src(x)[:50]), x))
+    R.count("find/min-default results used as index", n)
+    if not n:
+        R.ok("FIND-SENTINEL", "no result of str.find / min(default=-k) is used as an index or slice bound in the LaTeX / OPB writers", "cnfgen.utils", nontrivial=False)
